@@ -190,6 +190,7 @@ def plan(tier, seed):
     nrand = 20000 if tier == 'quick' else 320000
     shards = [('singles', k) for k in range(NSHARDS)]
     shards += [('classpairs', k) for k in range(NSHARDS)]
+    shards += [('asciipairs', k) for k in range(NSHARDS)]
     shards += [('rand', nrand // NSHARDS, seed * 1000 + k) for k in range(NSHARDS)]
     if tier == 'thorough':
         shards += [('allpairs', k, 64) for k in range(64)]
@@ -198,7 +199,8 @@ def plan(tier, seed):
                                          'all_pairs': tier == 'thorough'},
             'required_classes': ['single', 'class-pair', 'random', 'pair:ends-control-word>letter',
                                  'pair:ends-control-word>space', 'pair:ends-brace>letter',
-                                 'pair:ends-control-symbol>letter', 'double-newline']}
+                                 'pair:ends-control-symbol>letter', 'double-newline',
+                                 'ascii-pairs']}
 
 
 def class_pairs():
@@ -245,6 +247,26 @@ def run_shard(shard, res):
                     res.nontriv_distinct()
                 res.label('class-pair')
                 res.label('pair:%s>%s' % (lc, rc), {'s': s})
+    elif kind == 'asciipairs':
+        # every ordered pair (and triple of equal characters) of invertible printable ASCII:
+        # new ligature-like specials would show here
+        _, k = shard
+        pinned = set(alphabet())
+        ascii_ = [chr(o) for o in range(33, 127) if chr(o) in pinned]
+        i = 0
+        for a in ascii_:
+            for b in ascii_:
+                i += 1
+                if i % NSHARDS != k:
+                    continue
+                for s in (a + b, 'x' + a + b + 'y', a + b + b):
+                    if not valid_domain(s):
+                        continue
+                    for cfg in (CONFIGS[0], CONFIGS[3], CONFIGS[6]):
+                        check(s, cfg, res, {'s': s, 'cfg': list(cfg)})
+                    res.nontriv_distinct()
+        res.label('ascii-pairs')
+        res.exhaustive = True
     elif kind == 'rand':
         _, n, seed = shard
         from hypothesis import strategies as st
